@@ -235,7 +235,7 @@ def record_pure(tid: str, tt: list[list[int]], seed: int, kinds: list[str], per_
 
     if "sanitize" in kinds:
         pool = ["a_45[x]", "b12{z}", "c[", "c]", "c_", "_c_", "x y", "x-y", "x.y", "TNF\u03b1", "NF\u03baB", "I\u03baB\u03b1", "g\u00e9ne", "x\u00b2",
-                "9lives", "A", "a", "_", "__", "p53", "p53*", "p53'", "v(1)", "v[1]", "v{1}", "v<1>", "q|r", "q&r", "\u0434\u043d\u043a"]
+                "9lives", "A", "a", "_", "gab1_kin", "erb0_x", "b1_a", "b0_b1_x", "__", "p53", "p53*", "p53'", "v(1)", "v[1]", "v{1}", "v<1>", "q|r", "q&r", "\u0434\u043d\u043a"]
         for _ in range(max(2, per_kind // 3)):
             e = _default(n)
             e["k"] = "sanitize"
